@@ -387,7 +387,10 @@ CLAIMED = {
               "last-step mean does not, counter-model); real _summarize_group_data + distribute are run on two-iteration histories.  The "
               "set-up chain group_by_power -> run_parametric -> distribute is run on a real Orificing object (recycled results, two "
               "interleaved assembly types, each assembly held against its own type's curve), and a grouping error is accepted only when no "
-              "cut-off the search can reach yields the requested number of groups."),
+              "cut-off the search can reach yields the requested number of groups.  The flows that are USED (Model/Orifice.lean writeFlows): "
+              "written by assembly id, every grouped position carries the flow distributed to it and no other position is touched "
+              "(c20_flows_written, c20_flows_others_untouched; pairing with the assigned positions in order provably does not: "
+              "c20_flows_by_order_counter) - tied to the real _setup_input_orifice on cores with ungrouped and empty positions (driver op orif)."),
         note=COMMON_NOTE + ("T3 hand model + differential correspondence on Orificing instances made with __new__.  "
                             "Partial: the pressure-drop clause for the last group does not hold in the model (and is "
                             "reported as an assumption, not as a violation, because distribute() itself stops with an "
